@@ -29,7 +29,7 @@ ASSUMPTIONS = ['CPython list.sort is stable (also with reverse=True)',
                'pickle round-trips the generated cell values']
 REQUIRED = ['sort:pass-after-a-failed-pass', 'sort:iterator-open-across-clearcache', 'long-table-sorts', 'chunked:more-than-16-chunks+ties', 'chunked:buffersize==nrows', 'chunked:buffersize==nrows-1', 'inmemory:buffersize==nrows+1', 'chunked:buffersize==1',
             'chunked:reverse+ties-across-chunks', 'pass2:file-cache', 'pass2:mem-cache', 'key-cell-missing',
-            'mergesort:tie-across-tables', 'mergesort:inputs-are-sort-views', 'mergesort:presorted', 'config.sort_buffersize-used']
+            'sort-of-a-sort-view-on-part-of-the-key', 'mergesort:tie-across-tables', 'mergesort:inputs-are-sort-views', 'mergesort:presorted', 'config.sort_buffersize-used']
 EXHAUSTIVE = {'quick': False, 'thorough': False}
 
 _audit = None
@@ -158,6 +158,10 @@ def _judge_sort(case, ctx):
     ctx.op('sort')
     out = []
     sub = os.path.join(_audit.dir, 'sub')
+    pre_sorted_input = None
+    if isinstance(key, (list, tuple)) and len(key) >= 2 and int(util.fp(case)[4:6], 16) % 3 == 0:
+        pre_sorted_input = [key[0], list(key[:-1]), tuple(key), key[-1]][int(util.fp(case)[6:8], 16) % 4]
+        ctx.seen('sort-of-a-sort-view-on-part-of-the-key')
     if case.get('buffersizes'):
         ctx.seen('long-table-sorts')
     for bs in (case.get('buffersizes') or list(range(1, n + 3))) + [None, 'config']:
@@ -177,6 +181,10 @@ def _judge_sort(case, ctx):
                     kw['buffersize'] = bs
                     eff = bs
                 before = len(_audit.created)
+                if pre_sorted_input:
+                    # the input is itself a sort view, on a leading part of the key, on the same key, or on its last field (same
+                    # direction): a stable sort of it by the full key gives what sorting the plain table gives
+                    src = petl.sort(src, pre_sorted_input, reverse=reverse)
                 view = petl.sort(src, key, reverse=reverse, **kw)
                 for p in (1, 2):
                     c0 = len(_audit.created)
